@@ -622,10 +622,19 @@ impl IoLoop {
                     )
                     .context(RegisterWithPollHandleSnafu)?;
             } else if had_data_to_write {
-                trace!("reregistering socket for readable only");
                 have_written_to_socket = true;
+                // If the first write attempt hit WouldBlock (or was only partial), data is
+                // still queued; keep listening for writable or nothing will ever wake us
+                // up to send the rest.
+                let interest = if self.inner.has_data_to_write() {
+                    trace!("reregistering socket for readable or writable");
+                    Ready::readable() | Ready::writable()
+                } else {
+                    trace!("reregistering socket for readable only");
+                    Ready::readable()
+                };
                 self.poll
-                    .reregister(stream, STREAM, Ready::readable(), PollOpt::edge())
+                    .reregister(stream, STREAM, interest, PollOpt::edge())
                     .context(RegisterWithPollHandleSnafu)?;
             }
         }
